@@ -65,7 +65,7 @@ def build_objstm(members, rng, sp, trailing_ws, member_sep):
     return bytes(head) + bytes(body), len(head)
 
 
-def make_file(rng, tier, vals=None):
+def make_file(rng, tier, vals=None, ghost=False):
     sp = S.Speller(rng, comments=False)
     n = rng.choice([1, 2, 3, 5]) if vals is None else len(vals)
     vals = vals if vals is not None else [S.rand_value(rng, depth=rng.choice([0, 0, 1, 2]), kinds=["null", "bool", "int", "real", "name", "str", "arr", "dict", "ref"]) for _ in range(n)]
@@ -100,6 +100,10 @@ def make_file(rng, tier, vals=None):
     for i, num in enumerate(comp_nums):
         table[num] = ("c", stm_num, i)
     xnum = stm_num + 1
+    if ghost:
+        # an xref entry whose index equals /N of the object stream it names (one past the last member)
+        table[xnum + 1] = ("c", stm_num, n)
+        table[xnum + 2] = ("c", stm_num, n + 7)
     xoff = len(out)
     table[xnum] = ("n", xoff)
     table[0] = ("f", 0)
@@ -123,7 +127,7 @@ def make_file(rng, tier, vals=None):
             rows += b"\x02" + t[1].to_bytes(4, "big") + t[2].to_bytes(2, "big")
         else:
             rows += b"\x00" + (0).to_bytes(4, "big") + b"\xff\xff"
-    xd = {"Type": Name("XRef"), "Size": xnum + 1, "W": [1, 4, 2], "Index": index, "Root": Ref(1), "Length": len(rows)}
+    xd = {"Type": Name("XRef"), "Size": xnum + (3 if ghost else 1), "W": [1, 4, 2], "Index": index, "Root": Ref(1), "Length": len(rows)}
     out += b"%d 0 obj\n" % xnum + ser(xd) + b"\nstream\n" + bytes(rows) + b"\nendstream\nendobj\n"
     out += b"startxref\n%d\n%%%%EOF\n" % xoff
     return bytes(out), vals, direct_nums, comp_nums, payload, first, filt, trailing
@@ -158,6 +162,14 @@ def generate(rng, tier):
                 yield Case("resolve_one", [b"s", data, str(dn).encode()], expect=exp, model=False, tags=tags + ["direct"])
                 yield Case("objstm", [b"s", data, str(cn).encode()], mfields=[str(first).encode(), str(len(vals)).encode(), str(idx).encode(), payload],
                            expect=exp, tags=tags + ["compressed"])
+    # an index one past the last member (and further): an error value in both the implementation and the model, never a panic
+    for rep in range(3 if tier == "quick" else 40):
+        data, vals, dnums, cnums, payload, first, filt, trailing = make_file(rng, tier, None, True)
+        n = len(vals)
+        xnum = dnums[0] + 2 * n + 1
+        for k, idx in ((xnum + 1, n), (xnum + 2, n + 7)):
+            yield Case("objstm", [b"s", data, str(k).encode()], mfields=[str(first).encode(), str(n).encode(), str(idx).encode(), payload],
+                       expect=err(), tags=["index-out-of-range"], kind="malformed")
     # streams whose /Length is stored in the three ways
     for i in range(60 if tier == "quick" else 2000):
         body = S.rand_bytes(rng) + bytes(rng.randrange(256) for _ in range(rng.randint(0, 40)))
